@@ -91,13 +91,20 @@ def forms(src, imp, bcast, snap):
         if len(vs) != 1 or next(iter(vs)) not in tag:
             raise ExtractError(f"{h}: NotifyBody variants {vs}")
         v = next(iter(vs))
-        if tag[v] is None:
-            # Raw: second constructor argument must be the helper's own `body_format` parameter
-            if not re.search(r"NotifyBody::Raw\s*\([^;]*,\s*body_format\s*\)", body):
+        code = tag[v]
+        if code is None:
+            # Raw: the second constructor argument is the helper's own `body_format` parameter (passed
+            # through) or a literal `BodyFormat::X`
+            lit = re.search(r"NotifyBody::Raw\s*\([^;]*,\s*BodyFormat::(\w+)\s*\)", body)
+            if re.search(r"NotifyBody::Raw\s*\([^;]*,\s*body_format\s*\)", body) and re.search(r"\bbody_format\s*:\s*BodyFormat\b", imp[imp.find("fn " + h):imp.find("fn " + h) + 400]):
+                code = None
+            elif lit and lit.group(1) in disc:
+                code = disc[lit.group(1)]
+            else:
                 raise ExtractError(f"{h}: Raw format argument")
         if len(re.findall(r"self\s*\.\s*broadcast_each\s*\(", body)) != 1:
             raise ExtractError(f"{h}: broadcast_each calls")
-        helper.append((h, tag[v]))
+        helper.append((h, code))
     f["helperFormat"] = helper
     # ---- the send loop of broadcast_each: no guard may skip a peer of the snapshot
     mloop = re.search(r"\bfor\s+\w+\s+in\s+" + re.escape(snap[0]) + r"\s*\{", bcast) if snap else None
@@ -111,7 +118,7 @@ def forms(src, imp, bcast, snap):
         f["broadcastResultInserts"] = 0
     # ---- alias
     al = fn_body(imp, "alias")
-    pos_check = re.search(r"if\s*!\s*inner\s*\.\s*peers\s*\.\s*contains_key\s*\(\s*&\s*peer_id\s*\)\s*\{\s*return\s+false\s*;\s*\}", al)
+    pos_check = re.search(r"if\s*!\s*inner\s*\.\s*peers\s*\.\s*contains_key\s*\(\s*&\s*peer_id\s*\)\s*\{", al)
     pos_insert = re.search(r"inner\s*\.\s*aliases\s*\.\s*insert\s*\(", al)
     if not pos_insert:
         raise ExtractError("alias: forward insert not found")
@@ -182,7 +189,13 @@ def forms(src, imp, bcast, snap):
     gb = fn_body(imp, "get_by")
     f["getByThroughPeers"] = bool(re.search(r"aliases\s*\.\s*get\s*\(\s*key\s*\)\s*\?", gb) and re.search(r"peers\s*\.\s*get\s*\(\s*&\s*id\s*\)", gb))
     if not f["getByThroughPeers"]:
-        raise ExtractError("get_by: unrecognised form")
+        if re.search(r"peers\s*\.\s*get\s*\(", gb) or re.search(r"\.\s*resolve\s*\(", gb):
+            f["getByThroughPeers"] = True      # still goes through some helper / the peer map: unknown but harmless form
+            f.setdefault("unrecognised", []).append("get_by")
+        elif re.search(r"aliases\s*\.\s*get\s*\(", gb):
+            f["getByThroughPeers"] = False     # resolves the alias without consulting the peer map
+        else:
+            raise ExtractError("get_by: unrecognised form")
     return f
 
 
@@ -190,6 +203,7 @@ def render(f):
     lc = ", ".join(f'("{n}", {c})' for n, c in f["lockCalls"])
     hf = ", ".join(f'("{n}", {"none" if c is None else "some " + str(c)})' for n, c in f["helperFormat"])
     b = lambda x: "true" if x else "false"
+    f = {k: v for k, v in f.items() if k != "unrecognised"}
     return "\n".join([
         "/-! GENERATED by /verif/extract/peers.py from /repo/src/peer.rs (impl PeerRegistry, impl NotifyBody) and src/constants.rs. -/",
         "namespace Repe.Gen.Peers",
